@@ -18,7 +18,7 @@ from .util import sha, short, mix64, fmt_num
 PROP = "C14"
 LEVEL = "exploration"
 QUICK_JOBS = 2400
-THOROUGH_JOBS = 120000
+THOROUGH_JOBS = 100000
 WALL_CAP = {"quick": 240.0, "thorough": 3300.0}
 
 RULE = ("one case = (generated model, sequence of 1-8 override/remove/add operations on any section and key - repeated keys, "
@@ -234,10 +234,10 @@ def gen_ops(rng, spec, route):
             kind = "add"
         q = rng.random()
         if kind in ("override", "remove"):
-            if existing and q < 0.8:
+            if existing and q < 0.93:
                 nk, k0, v0 = rng.choice(existing)
                 key = k0 if rng.random() < 0.6 else ws_variant(rng, nk)
-            elif q < 0.9:
+            elif q < 0.97:
                 key = rng.choice(["Zz-Zz", "nonexistent", "q(r,A)", "Xx"])
                 nk, v0 = norm_key(key), None
             else:
@@ -276,10 +276,10 @@ def gen_ops(rng, spec, route):
             if q < 0.25 and removed_keys:
                 sec_name, nk = rng.choice(removed_keys)
                 key = nk if rng.random() < 0.6 else ws_variant(rng, nk)
-            elif q < 0.45 and existing:
+            elif 0.25 <= q < 0.33 and existing:
                 nk, k0, v0 = rng.choice(existing)      # duplicate: must be rejected
                 key = k0 if rng.random() < 0.4 else ws_variant(rng, nk)
-            elif q < 0.6:
+            elif q < 0.45:
                 sec_name = rng.choice(["Species", "Pair", "EAM-Embed", "EAM-Density", "Notes", "Tabulation"])
                 key = _new_key(rng, spec, sec_name)
             else:
